@@ -29,9 +29,9 @@ from tqv.core import SubCheck, Violation, req
 
 PROPERTY = "C06"
 RULE = (
-    "Predicate cases are drawn by Hypothesis: a map family (Stinespring channel, unitary conjugation, mixture of >= 2 "
+    "Predicate cases are drawn by Hypothesis: a map family (Stinespring channel, adjoint of a Stinespring channel, unitary conjugation, mixture of >= 2 "
     "distinct unitaries, Gaussian CP family, CP minus a certified rank-one part, independent (A,B) pairs, CP minus a "
-    "product-vector part with a non-positivity certificate, transpose, reduction), d_in, d_out in 2..4, number of Kraus "
+    "product-vector part with a non-positivity certificate, a single pair (U, B) with B != U, transpose, reduction), d_in, d_out in 2..4, number of Kraus "
     "operators 1..5, real/complex, an optional perturbation of known size (breaking trace preservation, complete "
     "positivity, Hermiticity preservation or unitality) and a PRNG seed for the entries; each map is presented in every "
     "representation the predicate accepts (flat / nested / single-row Kraus lists, unitarily re-mixed Kraus list, "
@@ -44,13 +44,13 @@ RULE = (
     "among non-trivial cases."
 )
 ASSUMPTIONS = [
-    "maps act on square operators: M_{d_in} -> M_{d_out}, both sides of every (A_i, B_i) pair have shape d_out x d_in, d_in, d_out in 2..4",
+    "maps act on square operators: M_{d_in} -> M_{d_out}, both sides of every (A_i, B_i) pair have shape d_out x d_in, d_in, d_out in 2..4 (plus 2->8 and 8->2 for Kraus lists given to is_quantum_channel)",
     "a verdict is asserted only when the definition holds to 1e-12*scale or is violated by >= 1e-3*scale (scale = max(1, |J|_max)); nothing is asserted in between",
     "a bare Choi matrix with d_in != d_out is passed only to predicates with a dim argument (is_trace_preserving, is_unital); the documented default is equal dimensions",
     "is_extremal receives CP representations only (flat, nested, single-row lists, Choi matrix): its nested form is flattened, so the paired form is not an accepted input; it is asked about channels (CP and TP) only",
     "is_unitary / is_extremal are asked about Kraus lists only when the list is minimal (number of operators = Choi rank): both are documented in terms of 'the' Kraus operators; redundant lists such as [U/sqrt2, U/sqrt2] are not generated",
-    "choi_rank is asserted only on well-conditioned instances: every singular value of the reference Choi matrix is >= 1e-6*s_max or <= 0.05*(N*eps*s_max), the default cut of numpy.linalg.matrix_rank",
-    "is_positive: 'True' is demanded for completely positive maps, 'False' for maps with a verified certificate (a PSD input whose image has a negative expectation <= -1e-2); for positive-but-not-CP maps (transpose, reduction) and uncertified maps either verdict is accepted, only its independence of the representation is asserted",
+    "choi_rank is asserted only on well-conditioned instances: every singular value of the reference Choi matrix is >= 1e-6*s_max or <= 0.1*(N*eps*s_max), the default cut of numpy.linalg.matrix_rank",
+    "is_positive: 'True' is demanded for completely positive maps, 'False' for maps with a verified certificate (a PSD input whose image has a negative expectation <= -1e-2, or whose image is not Hermitian by >= 1e-2); for positive-but-not-CP maps (transpose, reduction) and uncertified maps either verdict is accepted, only its independence of the representation is asserted",
     "numpy eigvalsh / svd / matrix products are trusted for the reference predicates",
     "pauli_channel: probability vectors of length 1 (q = 0) are outside the domain; the scalar form draws from numpy's legacy global RNG, which the check seeds from the case",
     "depolarizing / dephasing / reduction / choi document no parameter range, so no rejection is asserted for them; amplitude_damping, phase_damping, bitflip (gamma, prob in [0,1], 2x2 input) and pauli_channel (non-negative, sums to 1 within numpy.isclose, length 4^q) must raise ValueError outside",
@@ -65,9 +65,9 @@ TOL_FAIL = 1e-3
 # ==========================================================================================
 # ground-truth maps
 # ==========================================================================================
-CP_BASE = ("stinespring", "unitary", "mixed_unitary", "cp_generic")
-NONCP = ("hp_not_cp", "non_hp", "witness_nonpos", "transpose", "reduction")
-SQUARE_ONLY = ("unitary", "mixed_unitary", "transpose", "reduction")
+CP_BASE = ("stinespring", "unital_dual", "unitary", "mixed_unitary", "cp_generic")
+NONCP = ("hp_not_cp", "non_hp", "unitary_pair", "witness_nonpos", "transpose", "reduction")
+SQUARE_ONLY = ("unitary", "mixed_unitary", "unitary_pair", "transpose", "reduction")
 PERTS = ("tp", "unital", "cp", "hp")
 
 
@@ -79,6 +79,9 @@ def _map_case(draw, fams=CP_BASE + NONCP, perts=PERTS, dims="any", rmax=5):
         dout = din
     elif dims == "rect":
         dout = draw(st.sampled_from([d for d in (2, 3, 4) if d != din]))
+        if draw(st.integers(0, 5)) == 0:
+            # d_in * d_out a perfect square although d_in != d_out (a guessed "equal dimensions" reading fits the size)
+            din, dout = draw(st.sampled_from([[2, 8], [8, 2]]))
     else:
         dout = draw(st.integers(2, 4))
     case = {
@@ -134,6 +137,11 @@ def build_map(case) -> Map:
         r = max(r, -(-din // dout))
         v = gen.rand_isometry(sub(), dout * r, din, real)
         kraus = [v[i * dout : (i + 1) * dout, :].copy() for i in range(r)]
+    elif fam == "unital_dual":
+        # adjoint of a Stinespring channel M_{dout} -> M_{din}: unital, in general not trace preserving
+        r = max(r, -(-dout // din))
+        v = gen.rand_isometry(sub(), din * r, dout, real)
+        kraus = [v[i * din : (i + 1) * din, :].conj().T.copy() for i in range(r)]
     elif fam == "unitary":
         kraus = [gen.rand_unitary(sub(), din, real)]
     elif fam == "mixed_unitary":
@@ -154,6 +162,16 @@ def build_map(case) -> Map:
         pairs = [(k, k) for k in ks] + [(math.sqrt(t) * c, -math.sqrt(t) * c)]
     elif fam == "non_hp":
         pairs = [(_gauss(g, dout, din, real) / math.sqrt(din), _gauss(g, dout, din, real) / math.sqrt(din)) for _ in range(r)]
+    elif fam == "unitary_pair":
+        # one pair (U, B) with B != U: X -> U X B^dagger is not a unitary channel (rank-one Choi matrix, not PSD)
+        u = gen.rand_unitary(sub(), din, real)
+        variant = r % 3
+        if variant == 0:
+            pairs = [(u, -u)]
+        elif variant == 1:
+            pairs = [(u, np.exp(1j * float(g.uniform(0.3, 2.8))) * u)]
+        else:
+            pairs = [(u, gen.rand_unitary(sub(), din, real))]
     elif fam == "witness_nonpos":
         # Phi(X) = sum K' X K'^dagger - t |b><c| X |c><b| with <b|K'|c> = 0: <b| Phi(|c><c|) |b> = -t
         b = gen.rand_ket(sub(), dout, real)
@@ -241,7 +259,7 @@ def truth_of(m: Map) -> dict:
     t["sv"] = sv
     cut = len(sv) * EPS * sv[0]
     big = sv >= 1e-6 * sv[0]
-    small = sv <= 0.05 * cut
+    small = sv <= 0.1 * cut
     t["rank"] = int(big.sum()) if bool(np.all(big | small)) else None
     t["rank_loose"] = int((sv >= 1e-6 * sv[0]).sum()) if bool(np.all((sv >= 1e-6 * sv[0]) | (sv <= 1e-12 * sv[0]))) else None
     # unitary channel: J = vec(U) vec(U)^dagger with U unitary
@@ -265,6 +283,20 @@ def truth_of(m: Map) -> dict:
         ok_in = ref.lam_min(p_in) >= -1e-14
         val = float(np.real(b.conj() @ ref.apply_pairs(m.pairs, p_in) @ b))
         if ok_in and val <= -1e-2:
+            t["pos"] = False
+    if t["hp"] is False and t["pos"] is None:
+        # a positive map preserves Hermiticity: a rank-one PSD input whose image is not Hermitian certifies non-positivity
+        worst = 0.0
+        for i in range(din):
+            for k in range(i, din):
+                for ph in (1.0, 1j):
+                    vec = np.zeros(din, dtype=complex)
+                    vec[i] += 1.0
+                    if k != i:
+                        vec[k] += ph
+                    out = ref.apply_pairs(m.pairs, np.outer(vec, vec.conj()))
+                    worst = max(worst, float(np.max(np.abs(out - out.conj().T))))
+        if worst >= 1e-2:
             t["pos"] = False
     # extremality (channels only), from a minimal Kraus family of the reference Choi matrix
     t["extremal"] = None
@@ -953,17 +985,17 @@ _ALL = CP_BASE + NONCP
 _CHANNELISH = ("stinespring", "unitary", "mixed_unitary")
 
 SUBCHECKS = [
-    SubCheck("cp_hp_positive", check_cp_hp_positive, lambda: _map_case(), _label, quick=1600, thorough=30000, shards=8),
-    SubCheck("tp_pairs_choi", check_tp_pairs_choi, lambda: _map_case(), _label, quick=1600, thorough=30000, shards=8),
-    SubCheck("tp_cp_lists", check_tp_cp_lists, lambda: _map_case(fams=CP_BASE, perts=("tp", "unital")), _label, quick=800, thorough=15000, shards=4),
-    SubCheck("unital", check_unital, lambda: _map_case(), _label, quick=1600, thorough=30000, shards=8),
-    SubCheck("unitary", check_unitary, lambda: _map_case(), _label, quick=1600, thorough=30000, shards=8),
-    SubCheck("channel_square", check_channel_square, lambda: _map_case(dims="square"), _label, quick=1600, thorough=30000, shards=8),
-    SubCheck("channel_rect_kraus", check_channel_rect_kraus, lambda: _map_case(fams=("stinespring", "cp_generic", "hp_not_cp", "non_hp"), dims="rect"), _label, quick=800, thorough=15000, shards=4),
-    SubCheck("choi_rank", check_choi_rank, lambda: _map_case(), _label, quick=1600, thorough=30000, shards=8),
-    SubCheck("extremal", check_extremal, lambda: _map_case(fams=_CHANNELISH, perts=("unital",)), _nt_extremal, quick=1600, thorough=30000, shards=8),
-    SubCheck("depolarizing_dephasing", check_dep, _dep_case, _nt_dep, quick=1600, thorough=30000, shards=8),
-    SubCheck("qubit_noise", check_qubit, _qubit_case, _nt_qubit, quick=2400, thorough=40000, shards=8),
-    SubCheck("pauli_channel", check_pauli, _pauli_case, _nt_pauli, quick=1200, thorough=20000, shards=8),
-    SubCheck("reduction_choi", check_reduction_choi, _red_case, _nt_red, quick=1200, thorough=20000, shards=8),
+    SubCheck("cp_hp_positive", check_cp_hp_positive, lambda: _map_case(), _label, quick=5000, thorough=80000, shards=8),
+    SubCheck("tp_pairs_choi", check_tp_pairs_choi, lambda: _map_case(), _label, quick=5000, thorough=80000, shards=4),
+    SubCheck("tp_cp_lists", check_tp_cp_lists, lambda: _map_case(fams=CP_BASE, perts=("tp", "unital")), _label, quick=2500, thorough=40000, shards=2),
+    SubCheck("unital", check_unital, lambda: _map_case(), _label, quick=5000, thorough=80000, shards=4),
+    SubCheck("unitary", check_unitary, lambda: _map_case(), _label, quick=5000, thorough=80000, shards=4),
+    SubCheck("channel_square", check_channel_square, lambda: _map_case(dims="square"), _label, quick=5000, thorough=80000, shards=6),
+    SubCheck("channel_rect_kraus", check_channel_rect_kraus, lambda: _map_case(fams=("stinespring", "unital_dual", "cp_generic", "hp_not_cp", "non_hp"), dims="rect"), _label, quick=2500, thorough=40000, shards=3),
+    SubCheck("choi_rank", check_choi_rank, lambda: _map_case(), _label, quick=5000, thorough=80000, shards=4),
+    SubCheck("extremal", check_extremal, lambda: _map_case(fams=_CHANNELISH, perts=("unital",)), _nt_extremal, quick=5000, thorough=80000, shards=4),
+    SubCheck("depolarizing_dephasing", check_dep, _dep_case, _nt_dep, quick=5000, thorough=80000, shards=4),
+    SubCheck("qubit_noise", check_qubit, _qubit_case, _nt_qubit, quick=6000, thorough=100000, shards=4),
+    SubCheck("pauli_channel", check_pauli, _pauli_case, _nt_pauli, quick=3000, thorough=50000, shards=4),
+    SubCheck("reduction_choi", check_reduction_choi, _red_case, _nt_red, quick=3000, thorough=50000, shards=4),
 ]
